@@ -128,7 +128,9 @@ class Gen:
     rng = s.rng
     if len(comb) < 2 or rng.random() > p: return
     idx = {b: i for i, (b, _, _) in enumerate(comb)}
-    vars_ = sorted({v for _, r, w in comb for v in (r | w) if len(v) == 1})
+    # only the component's own wires: a constraint on a port would order blocks against writers / readers that live outside
+    vars_ = sorted({v for _, r, w in comb for v in (r | w) if len(v) == 1 and v[0] not in ('in_', 'out')})
+    if not vars_: return
     cons, seen = [], set()
     for _ in range(rng.randrange(1, 4)):
       kind = rng.choice(['WR<', 'WR>', 'RD<', 'RD>', 'UU'])
@@ -141,6 +143,7 @@ class Gen:
       v = rng.choice(vars_)
       W = [idx[b] for b, r, w in comb if v in w]; R = [idx[b] for b, r, w in comb if v in r]
       S = W if kind[:2] == 'WR' else R
+      if not S: continue
       if kind[2] == '<':       # RD/WR(v) < U(bj): bj after all of them
         js = [j for j in range(len(comb)) if all(j > i for i in S)]
         if not js: continue
@@ -373,15 +376,16 @@ def scan_residue(top, removed_ids):
       hits.add(where); return
     if depth > 4: return
     if isinstance(v, dict):
-      for k, x in v.items(): walk(k, where + ':key', depth + 1); walk(x, where + ':value', depth + 1)
+      for k, x in v.items(): walk(k, where, depth + 1); walk(x, where, depth + 1)
     elif isinstance(v, (set, frozenset, list, tuple)):
       for x in v: walk(x, where, depth + 1)
   for attr, v in vars(top._dsl).items():
     if attr in ('all_value_nets', 'all_method_nets') : pass
     walk(v, 'top._dsl.' + attr)
+  topattrs = set(vars(top._dsl))
   for c in top.get_all_components():
     for attr, v in vars(c._dsl).items():
-      if attr in ('parent_obj', 'elaborate_top', 'args', 'kwargs', 'param_tree'): continue
+      if attr in ('parent_obj', 'elaborate_top', 'args', 'kwargs', 'param_tree') or (c is top and attr.startswith('all_')): continue
       walk(v, 'component._dsl.' + attr)
   live = top._collect_all_single(lambda x: True)
   for o in live:
@@ -425,16 +429,20 @@ def run_history(ctx, tag, src, history, params, cases, meta, expect_hier=None, f
     ctx.violation(f'C15:generator:{type(e).__name__}', f'{tag}: base design does not elaborate: {type(e).__name__}: {str(e)[:300]}', dict(replay, traceback=traceback.format_exc()[-1500:]))
     return
   table = {}
+  pnames = {k_ for _, kw in params for k_ in kw}
   removed = []       # keep the removed objects alive so that ids stay unique
   ok = True
   for (slot, mode, cname, k) in history:
     foo = eval(slot, {'s': top})
     removed.append(removed_objects(foo))
     newc = getattr(mod, cname)
+    # replace_component( foo, cls ) is documented to build cls( *foo's args, **foo's kwargs )
+    fargs, fkw = tuple(foo._dsl.args), {k_: v_ for k_, v_ in foo._dsl.kwargs.items() if k_ not in pnames}
     try:
       if mode == 'cls':
         top.replace_component(foo, newc)
-        table = {s_: v for s_, v in table.items() if not (s_ == slot or s_.startswith(slot + '.'))}; table[slot] = newc
+        table = {s_: v for s_, v in table.items() if not (s_ == slot or s_.startswith(slot + '.'))}
+        table[slot] = (lambda c_, a_, kw_: (lambda *a, **kw: c_(*a_, **kw_)))(newc, fargs, fkw)
       else:
         top.replace_component_with_obj(foo, newc(k))
         table = {s_: v for s_, v in table.items() if not (s_ == slot or s_.startswith(slot + '.'))}
@@ -497,9 +505,12 @@ def run_history(ctx, tag, src, history, params, cases, meta, expect_hier=None, f
     if os.path.exists(f): os.remove(f)
   if expect_hier is not None:
     H, rs = expect_hier
-    obs = coq_list([coq_list([f'"{x}"' for x in r]) for r in sorted(rows_r)])
-    cases.append(f'({coq_hier(H)}, {coq_list([f"({coq_name(c)}, {coq_hier(h)})" for c, h in rs])}, {obs})')
-    meta.append((tag, replay, sorted(rows_r), sorted(rows_s)))
+    def case(rows, both):
+      obs = coq_list([coq_list([f'"{x}"' for x in r]) for r in sorted(rows)])
+      return f'({coq_hier(H)}, {coq_list([f"({coq_name(c)}, {coq_hier(h)})" for c, h in rs])}, {obs}, {both})'
+    cases.append(case(rows_s, 'true')); meta.append((tag, replay, 'direct-build'))
+    if rows_r != rows_s:
+      cases.append(case(rows_r, 'false')); meta.append((tag, replay, 'replaced'))
   ctx.count((tag, tuple(map(tuple, history))), True, cls=f'replacements:{len(history)}')
   for (slot, mode, cname, k) in history:
     ctx.hist['mode:' + mode] = ctx.hist.get('mode:' + mode, 0) + 1
@@ -632,6 +643,7 @@ DIRECTED = [
 
 def run(ctx):
   setup_impl_path()
+  t_py = time.time()
   quick = ctx.tier == 'quick'
   rng = ctx.rng
   cases, meta = [], []
@@ -652,20 +664,27 @@ def run(ctx):
     except Exception as e:
       ctx.violation(f'C15:history-crash:{type(e).__name__}', f'R{j}: harness could not process the history: {e!r}',
                     {'design_source': g.source(), 'history': history, 'traceback': traceback.format_exc()[-1500:]}, found_input=False)
+  ctx.extra['python_phase_s'] = round(time.time() - t_py, 1)
   bad = ctx.coq_bad_indices('meta', 'Base.Prelude Elab.Replace', 'From Coq Require Import String.\nLocal Open Scope string_scope.',
-                            'hier * list (name * hier) * list row', cases, 'case_ok c', shard=8 if quick else 20)
-  nmodel = 0
-  for i in bad:
-    tag, replay, rows_r, rows_s = meta[i]
-    if rows_r != rows_s: continue          # already reported as a difference between the replaced design and the direct build
+                            'hier * list (name * hier) * list row * bool', cases, 'case_ok c', shard=8 if quick else 20)
+  nmodel, confirmed = 0, 0
+  badset = set(bad)
+  for i, (tag, replay, kind) in enumerate(meta):
+    if kind == 'replaced':
+      # the Python diff already reported this history; the Coq model must reject the rows of the replaced design too
+      if i in badset: confirmed += 1
+      else:
+        ctx.violation(f'C15:model-mismatch:accepts-divergent:{tag}', f'{tag}: the Coq model accepts rows that differ from the direct build', dict(replay), found_input=False)
+      continue
+    if i not in badset: continue
     nmodel += 1
     if nmodel > 5: continue
     why = ctx.coq_eval('why', 'Base.Prelude Elab.Replace', 'From Coq Require Import String.\nLocal Open Scope string_scope.',
-                       [f"let '(H, rs, obs) := {cases[i]} in (rows_diff (views (meta (replace_seq_hier H rs))) obs, rows_diff obs (views (meta (replace_seq_hier H rs))))"])
-    ctx.violation(f'C15:model-mismatch:{tag}', f'{tag}: the metadata of the design (replaced == direct build) disagrees with the Coq metadata model: (model only, implementation only) = {why[0][:400]}',
+                       [f"let '(H, rs, obs, _) := {cases[i]} in (rows_diff (views (meta (replace_seq_hier H rs))) obs, rows_diff obs (views (meta (replace_seq_hier H rs))))"])
+    ctx.violation(f'C15:model-mismatch:{tag}', f'{tag}: the metadata of the design built directly disagrees with the Coq metadata model: (model only, implementation only) = {why[0][:400]}',
                   dict(replay, model_vs_observed=why[0][:3000]), found_input=False)
-  ctx.extra.update({'histories': len(meta) + len(DIRECTED), 'coq_cases': len(cases), 'coq_cases_rejected': len(bad),
-                    'coq_cases_rejected_where_replaced_equals_direct_build': nmodel})
+  ctx.extra.update({'histories': sum(1 for m in meta if m[2] == 'direct-build') + len(DIRECTED), 'coq_cases': len(cases),
+                    'direct_builds_rejected_by_model': nmodel, 'divergent_replaced_designs_rejected_by_model_too': confirmed})
 
 def main(ctx):
   ctx.trusted += ['harness/c15.py: generator emitting one source (slot table selects base / direct build) and the Coq hierarchy description; canonical dump; residue scan']
